@@ -93,6 +93,11 @@ CHECKS = {
    note=TB + "The statement 'the gradient is the derivative of the objective' is checked by finite differences per run, not proved (HasFDerivAt statements are a stretch item); L-BFGS-B never returning a point worse than x0 is SciPy behaviour, checked per fit.",
    technique="Lean 4 proof (softmax/logsumexp identity, abstract acceptance-loop monotonicity) + Float twin of the documented objectives vs captured optimiser inputs",
    ref="§6 C10"),
+ 'C13': dict(
+   text="Theorems over ℝ, all sizes: the graphical-lasso input is E = M₀⁻¹ + balance·Σ y_i v_i v_iᵀ (symmetric; labels and balance enter linearly); vetting: a solver exception, a negative eigenvalue or a non-finite entry ⇔ RuntimeError; n_features < 2 ⇒ ValueError; log det X ≤ tr X − d for X ≻ 0; Hölder bound tr(WN) ≤ tr(EN) + λ‖N‖₁,off for dual-feasible W; and WEAK DUALITY: for dual-feasible W = BᵀB (B invertible) every symmetric positive definite N has objective f(N) ≥ d + log det W — so the duality gap tr(EM)+λ‖M‖₁,off−d evaluated on the learned M bounds its sub-optimality (certificate ⇒ near-optimal). Tie: the matrix the real code hands to the graphical lasso (captured in-process) must equal the model's E recomputed from pairs, labels and the prior captured from the initialiser; Float twin of objective / gap / dual feasibility at the learned M; oracle: M finite SPD, objective within solver tolerance of an independent proximal-gradient solution (warm and cold start), failure stream (indefinite input) must end in RuntimeError or a finite SPD matrix.",
+   note=TB + "scikit-learn's graphical lasso is external (its tolerance 1e-4 on the dual gap bounds what 'minimises' can mean); the weak-duality theorem takes a factorisation W = BᵀB as the certificate form of M⁻¹ ≻ 0.",
+   technique="Lean 4 proof (input construction, vetting logic, log-det inequality, weak duality) + certificate / independent-solver comparison on real fits",
+   ref="§6 C13"),
 }
 
 NOT_YET = {}
